@@ -24,6 +24,22 @@ def statuses(ctx):
     return es, sl
 
 
+def rejections(ctx):
+    """One representative per way a table write can be refused: every legacy status whose normalisation is not OK (each
+    table preimage), unmapped legacy codes, and unified non-OK statuses."""
+    repo = ctx.repo
+    table = repo.get(NAMED, "SL_STATUS_MAP")
+    out = [k[1] for k, v in table.items() if v.value != 0]
+    es, sl = statuses(ctx)
+    out += [es["ERR_FATAL"], es["INVALID_CALL"] if "INVALID_CALL" in es else es["BAD_ARGUMENT"], sl["FAIL"], sl["NOT_FOUND"], sl["INVALID_INDEX"], sl["INVALID_PARAMETER"]]
+    seen, uniq = set(), []
+    for m in out:
+        if (m.cls.name, m.value) not in seen:
+            seen.add((m.cls.name, m.value))
+            uniq.append(m)
+    return uniq
+
+
 def entry_obj(ctx, endpoint, group, tag="entry"):
     c = ctx.repo.cls("bellows.types.struct", "EmberMulticastTableEntry")
     return Obj(c, {"endpoint": endpoint, "multicastId": group, "networkIndex": 0}, tag=tag)
@@ -51,7 +67,7 @@ def r15_1(ctx):
     ctx.fn(f)
     cls = repo.cls(MC, "Multicast")
     es, sl = statuses(ctx)
-    outs = Outcomes(OK((es["SUCCESS"],)), OK((sl["OK"],)), OK((es["ERR_FATAL"],)), OK((es["INVALID_CALL"],)) if "INVALID_CALL" in es else OK((sl["FAIL"],)),
+    outs = Outcomes(OK((es["SUCCESS"],)), OK((sl["OK"],)), *[OK((m,)) for m in rejections(ctx)],
                     RAISE("TimeoutError"), RAISE("EzspError"), RAISE("CancelledError"))
     for free in ({5}, {5, 9}, {0, 1, 2}):
         px = PX(repo, models=[("self._ezsp.setMulticastTableEntry", outs)], inline=same_class())
@@ -134,7 +150,7 @@ def r15_4(ctx):
     ctx.fn(f)
     cls = repo.cls(MC, "Multicast")
     es, sl = statuses(ctx)
-    outs = Outcomes(OK((es["SUCCESS"],)), OK((sl["OK"],)), OK((es["ERR_FATAL"],)), RAISE("TimeoutError"), RAISE("EzspError"), RAISE("CancelledError"))
+    outs = Outcomes(OK((es["SUCCESS"],)), OK((sl["OK"],)), *[OK((m,)) for m in rejections(ctx)], RAISE("TimeoutError"), RAISE("EzspError"), RAISE("CancelledError"))
     px = PX(repo, models=[("self._ezsp.setMulticastTableEntry", outs)], inline=same_class())
 
     def setup():
@@ -248,7 +264,8 @@ def r15_6(ctx):
     for meth, call in (("add_to_group", "app.multicast.subscribe"), ("remove_from_group", "app.multicast.unsubscribe")):
         f = repo.func(f"{dev}:EZSPEndpoint.{meth}")
         ctx.fn(f)
-        px = PX(repo, models=[(call, Outcomes(OK(sl["OK"]), OK(sl["FAIL"]), OK(sl["INVALID_INDEX"])))], inline=same_class(),
+        # Multicast.subscribe / unsubscribe hand back the NCP's raw status: the legacy success code below v14, the unified one from v14
+        px = PX(repo, models=[(call, Outcomes(OK(sl["OK"]), OK(es["SUCCESS"]), OK(sl["FAIL"]), OK(sl["INVALID_INDEX"]), OK(es["ERR_FATAL"])))], inline=same_class(),
                 facts={"(grp_id in self.member_of)": meth == "remove_from_group"})
         c = repo.cls(dev, "EZSPEndpoint")
         for p in px.explore(f, lambda: (self_obj(c, {}), {"grp_id": Sym("grp_id"), **({"name": None} if meth == "add_to_group" else {})})):
@@ -285,3 +302,64 @@ def r15_7(ctx):
         ok = p.terminal == "return" and aw and aw[0].what == "self._initialize" and sorted(subs) == [20, 30, 40]
         ctx.require(ok, "startup", f"startup awaits {[e.what for e in aw[:1]]} first and subscribes groups {subs}; must scan the table first and then "
                     "subscribe exactly the groups of the non-ZDO endpoints [20, 30, 40]", func=f, trace=p.trace(12))
+
+
+@rule("R15.8", ["C15"], "T-FUN", floor=4)
+def r15_8(ctx):
+    """Operation sequences on one controller object (subscribe g, unsubscribe g answered {accepted, rejected}, subscribe g
+    again; subscribe g, subscribe h): every table write of a subscribe carries that group, a non-zero endpoint and a free
+    index - also the second time round (an entry object shared between calls and zeroed by unsubscribe would program
+    endpoint 0 and report success) - and after each step every index is free or used by exactly one group."""
+    repo = ctx.repo
+    cls = repo.cls(MC, "Multicast")
+    es, sl = statuses(ctx)
+    sub_f, unsub_f = repo.func(f"{MC}:Multicast.subscribe"), repo.func(f"{MC}:Multicast.unsubscribe")
+    ctx.fn(sub_f)
+    for unsub_answer in (es["SUCCESS"], es["ERR_FATAL"]):
+        answers = {"n": 0}
+
+        def model(px_, t, a, k, fr):
+            answers["n"] += 1
+            ent = a[1] if len(a) > 1 else None
+            px_.emit("snapshot", "table-write", (answers["n"], a[0] if a else None, dict(ent.fields) if isinstance(ent, Obj) else ent))  # fields as they are now
+            return Outcomes(OK((unsub_answer if answers["n"] == 2 else es["SUCCESS"],)))
+
+        px = PX(repo, models=[("self._ezsp.setMulticastTableEntry", model)], inline=same_class())
+        px.inline.root = sub_f
+
+        def entry():
+            answers["n"] = 0
+            answers["writes"] = []
+            me = self_obj(cls, {"_multicast": {}, "_available": {0, 1}})
+            px.top_frame = None
+            px.emit("mark", "subscribe g")
+            px.call_function(sub_f, me, [0x10], {}, None)
+            px.emit("mark", "unsubscribe g")
+            px.call_function(unsub_f, me, [0x10], {}, None)
+            px.emit("mark", "subscribe g again")
+            px.call_function(sub_f, me, [0x10], {}, None)
+            px.emit("mark", "subscribe h")
+            px.call_function(sub_f, me, [0x20], {}, None)
+            return me
+
+        for p in px._run(entry):
+            ctx.paths += 1
+            me = p.value
+            bad = None
+            steps = {1: ("subscribe g", 0x10), 3: ("subscribe g again", 0x10), 4: ("subscribe h", 0x20)}
+            if unsub_answer.value != 0:
+                steps = {1: ("subscribe g", 0x10), 3: ("subscribe h", 0x20)}  # g is still subscribed: the second subscribe g writes nothing
+            for n_, idx_, fields in [e.args for e in p.events if e.kind == "snapshot"]:
+                if n_ in steps:
+                    step, want_group = steps[n_]
+                    if not (isinstance(fields, dict) and fields.get("endpoint") not in (0, None) and int(fields.get("multicastId", -1)) == want_group):
+                        bad = f"step '{step}' writes entry {fields!r} at index {idx_!r} (group 0x{want_group:x} with a non-zero endpoint expected)"
+            if not bad and p.terminal == "return":
+                used = {v[1] for v in me.fields["_multicast"].values()}
+                avail = me.fields["_available"]
+                groups = sorted(int(k) for k in me.fields["_multicast"])
+                want_groups = [0x10, 0x20]
+                if (used | avail) != {0, 1} or (used & avail) or groups != want_groups:
+                    bad = f"after the sequence the host reports groups {groups} on indices {sorted(used)} with free {sorted(avail)}; expected groups {want_groups}"
+            ctx.require(not bad and p.terminal == "return", f"sequence:unsubscribe-{'accepted' if unsub_answer.value == 0 else 'rejected'}",
+                        f"subscribe g / unsubscribe g ({unsub_answer!r}) / subscribe g / subscribe h: {bad or p.value!r}", func=sub_f, trace=p.trace(30))
